@@ -1287,6 +1287,566 @@ fn h2front_specs(rng: &mut Rng, prop: &str) -> Vec<H2Spec> {
     v
 }
 
+// ------------------------------ overlapping upload / download under back-pressure (h2c backend) --
+
+#[derive(Clone, Debug)]
+struct OverlapPlan {
+    upload: usize,
+    /// SO_RCVBUF of the backend's listening socket
+    rcvbuf: usize,
+    /// the backend reads the upload in bursts of this many bytes, then pauses
+    burst: usize,
+    pause: Duration,
+    /// response DATA frames (1 KiB each) sent per pause while the upload is in flight
+    frames_per_pause: usize,
+}
+
+#[derive(Default, Debug)]
+struct OverlapReport {
+    headers_seen: bool,
+    upload_ok: usize,
+    upload_done: bool,
+    resp_sent: usize,
+    resp_done: bool,
+    frames: usize,
+    /// `(class, detail)`: first violation found by the strict frame-level validation
+    violation: Option<(String, String)>,
+    error: Option<String>,
+    goaway: Option<u32>,
+    rst: Option<u32>,
+}
+
+fn upload_byte(i: usize) -> u8 {
+    // long-period, position-dependent
+    ((i.wrapping_mul(2654435761) >> 13) ^ (i >> 3)) as u8
+}
+
+fn resp_byte(i: usize) -> u8 {
+    ((i.wrapping_mul(40503) >> 7) ^ i) as u8
+}
+
+/// h2c backend that answers early, keeps sending small response DATA frames while it reads
+/// the upload in bursts through a small receive buffer, and validates every frame it gets
+fn serve_h2c_overlap(be: MockBackend, plan: OverlapPlan) -> OverlapReport {
+    let mut rep = OverlapReport::default();
+    let mut c = match be.accept(T) {
+        Ok(c) => c,
+        Err(e) => {
+            rep.error = Some(format!("accept: {e:?}"));
+            return rep;
+        }
+    };
+    let deadline = Instant::now() + Duration::from_secs(45);
+    let mut pos = 0usize;
+    let mut preface_done = false;
+    let (mut peer_init, mut send_conn, mut send_stream): (i64, i64, i64) = (65535, 65535, 65535);
+    let mut enc = loona_hpack::Encoder::new();
+    let mut last_progress = Instant::now();
+    let mut consumed_total = 0usize; // bytes dropped from the front of c.received
+    'outer: loop {
+        if Instant::now() > deadline {
+            rep.error = Some("backend deadline".into());
+            break;
+        }
+        if last_progress.elapsed() > Duration::from_secs(6) {
+            rep.error = Some(format!("no progress for 6 s (upload {} of {}, response {} bytes sent)", rep.upload_ok, plan.upload, rep.resp_sent));
+            break;
+        }
+        // one burst of reading
+        let mut burst = 0usize;
+        while burst < plan.burst {
+            let before = c.received.len();
+            match c.read_some_max(65536, Duration::from_millis(15)) {
+                ReadEnd::Done => {
+                    burst += c.received.len() - before;
+                    last_progress = Instant::now();
+                }
+                ReadEnd::Timeout => break,
+                ReadEnd::Closed | ReadEnd::Reset => {
+                    if !rep.upload_done {
+                        rep.error = Some("connection closed by sozu".into());
+                    }
+                    break 'outer;
+                }
+            }
+        }
+        // strict parsing
+        loop {
+            if !preface_done {
+                if c.received.len() - pos < 24 {
+                    break;
+                }
+                if &c.received[pos..pos + 24] != b"PRI * HTTP/2.0\r\n\r\nSM\r\n\r\n" {
+                    rep.violation = Some(("h2-frame-sync-lost-mid-data".into(), "bad preface".into()));
+                    break 'outer;
+                }
+                pos += 24;
+                preface_done = true;
+                let mut first = vec![];
+                let mut st = vec![];
+                st.extend_from_slice(&4u16.to_be_bytes());
+                st.extend_from_slice(&(1u32 << 24).to_be_bytes());
+                first.extend_from_slice(&frame(4, 0, 0, &st));
+                first.extend_from_slice(&frame(8, 0, 0, &(1u32 << 24).to_be_bytes()));
+                let _ = c.write_all(&first, T);
+                continue;
+            }
+            if c.received.len() - pos < 9 {
+                break;
+            }
+            let h = &c.received[pos..pos + 9];
+            let len = ((h[0] as usize) << 16) | ((h[1] as usize) << 8) | h[2] as usize;
+            let (ty, fl) = (h[3], h[4]);
+            let raw_sid = u32::from_be_bytes([h[5], h[6], h[7], h[8]]);
+            let sid = raw_sid & 0x7fff_ffff;
+            let at = consumed_total + pos;
+            let bad_shape = ty > 9
+                || len > 16384
+                || (sid != 0 && sid != 1)
+                || (ty == 8 && len != 4)
+                || (ty == 6 && len != 8)
+                || (ty == 3 && len != 4)
+                || (ty == 4 && len % 6 != 0)
+                || (ty == 0 && sid == 0)
+                || raw_sid & 0x8000_0000 != 0;
+            if bad_shape {
+                rep.violation = Some(("h2-frame-sync-lost-mid-data".into(), format!("wire offset {at}: not a frame header sozu can have meant: length {len} type {ty} flags {fl:#x} stream {raw_sid:#x} (after {} upload bytes, {} frames)", rep.upload_ok, rep.frames)));
+                break 'outer;
+            }
+            if c.received.len() - pos - 9 < len {
+                break;
+            }
+            let payload = &c.received[pos + 9..pos + 9 + len];
+            rep.frames += 1;
+            let mut reply = vec![];
+            match ty {
+                0 => {
+                    for (k, b) in payload.iter().enumerate() {
+                        if *b != upload_byte(rep.upload_ok + k) {
+                            let off = rep.upload_ok + k;
+                            let next: Vec<u8> = payload[k..payload.len().min(k + 13)].to_vec();
+                            rep.violation = Some(("body-corrupted-under-backpressure".into(), format!("request body corrupted at offset {off} of {} (DATA frame #{}, byte {k} of {len}); next bytes {:02x?}", plan.upload, rep.frames, next)));
+                            break 'outer;
+                        }
+                    }
+                    rep.upload_ok += len;
+                    if fl & 1 != 0 {
+                        rep.upload_done = true;
+                    }
+                }
+                1 => {
+                    rep.headers_seen = true;
+                    // answer early
+                    let block = enc.encode(vec![(&b":status"[..], &b"200"[..])]);
+                    reply.extend_from_slice(&frame(1, 4, 1, &block));
+                }
+                4 if fl & 1 == 0 => {
+                    for e in payload.chunks(6) {
+                        if e.len() == 6 && u16::from_be_bytes([e[0], e[1]]) == 4 {
+                            let v = u32::from_be_bytes([e[2], e[3], e[4], e[5]]) as i64;
+                            send_stream += v - peer_init;
+                            peer_init = v;
+                        }
+                    }
+                    reply.extend_from_slice(&frame(4, 1, 0, &[]));
+                }
+                8 => {
+                    let inc = (u32::from_be_bytes([payload[0], payload[1], payload[2], payload[3]]) & 0x7fff_ffff) as i64;
+                    if sid == 0 {
+                        send_conn += inc;
+                    } else {
+                        send_stream += inc;
+                    }
+                }
+                6 if fl & 1 == 0 => reply.extend_from_slice(&frame(6, 1, 0, payload)),
+                3 => rep.rst = Some(u32::from_be_bytes([payload[0], payload[1], payload[2], payload[3]])),
+                7 => rep.goaway = Some(u32::from_be_bytes([payload[4], payload[5], payload[6], payload[7]])),
+                _ => {}
+            }
+            pos += 9 + len;
+            if !reply.is_empty() {
+                let _ = c.write_all(&reply, T);
+            }
+            // keep memory flat
+            if pos > (1 << 20) {
+                c.received.drain(..pos);
+                consumed_total += pos;
+                pos = 0;
+            }
+        }
+        if rep.goaway.is_some() || rep.rst.is_some() {
+            break;
+        }
+        // response DATA while the upload is in flight (inside sozu's windows), the last one ends the stream
+        if rep.headers_seen && !rep.resp_done {
+            for _ in 0..plan.frames_per_pause {
+                let room = send_stream.min(send_conn);
+                if room < 1024 {
+                    break;
+                }
+                let chunk: Vec<u8> = (0..1024).map(|k| resp_byte(rep.resp_sent + k)).collect();
+                let last = rep.upload_done;
+                if c.write_all(&frame(0, last as u8, 1, &chunk), T).is_err() {
+                    rep.error = Some("write response DATA".into());
+                    break 'outer;
+                }
+                rep.resp_sent += 1024;
+                send_stream -= 1024;
+                send_conn -= 1024;
+                if last {
+                    rep.resp_done = true;
+                    break;
+                }
+            }
+        }
+        if rep.resp_done {
+            let _ = c.read_until_quiet(Duration::from_millis(50), Duration::from_millis(300));
+            break;
+        }
+        std::thread::sleep(plan.pause);
+    }
+    rep
+}
+
+/// HTTP/1.1 client uploads while the h2c backend already answers; returns the case text
+fn case_overlap_h2c(ctx: &mut Ctx, plan: &OverlapPlan, fails: &mut Vec<Fail>, dist: &mut BTreeMap<String, u64>) -> String {
+    let mut last_case = String::new();
+    for attempt in 0..4 {
+        ctx.n += 1;
+        let host = format!("o{}.test", ctx.n);
+        let be = MockBackend::listen_with(ConnOpts { rcvbuf: Some(plan.rcvbuf), ..ConnOpts::default() }).unwrap();
+        ctx.w.add_http_route(ctx.front, &host, "/", &format!("o{}", ctx.n), be.addr, true).unwrap();
+        let case = format!("overlap-h2c host={host} upload={} rcvbuf={} burst={} pause={:?} resp_frames_per_pause={} attempt={attempt}", plan.upload, plan.rcvbuf, plan.burst, plan.pause, plan.frames_per_pause);
+        last_case = case.clone();
+        *dist.entry("overlap:h1-h2c".into()).or_insert(0) += 1;
+        let p2 = plan.clone();
+        let bt = std::thread::spawn(move || serve_h2c_overlap(be, p2));
+        let mut c = RawConn::connect(ctx.front).unwrap();
+        let wstream = c.stream.try_clone().unwrap();
+        let upload = plan.upload;
+        let host2 = host.clone();
+        // writer thread: the whole upload, as fast as sozu takes it
+        let wt = std::thread::spawn(move || -> Result<(), String> {
+            let mut w = RawConn::from_stream(wstream);
+            let head = format!("POST /up HTTP/1.1\r\nHost: {host2}\r\nContent-Length: {upload}\r\n\r\n");
+            w.write_all(head.as_bytes(), Duration::from_secs(10)).map_err(|e| format!("head: {e:?}"))?;
+            // let the backend handshake finish first: a body that streams in while the h2c connection
+            // still waits for the backend's SETTINGS runs into the known 503 (F69)
+            std::thread::sleep(Duration::from_millis(60));
+            let mut off = 0;
+            while off < upload {
+                let n = (upload - off).min(1 << 16);
+                let chunk: Vec<u8> = (off..off + n).map(upload_byte).collect();
+                w.write_all(&chunk, Duration::from_secs(30)).map_err(|e| format!("client write at {off}: {e:?}"))?;
+                off += n;
+            }
+            std::mem::forget(w); // the reader half owns the socket
+            Ok(())
+        });
+        // wait for the answer, but not longer than the backend lives (+ a grace period)
+        let resp_deadline = Instant::now() + Duration::from_secs(50);
+        let mut backend_done_at: Option<Instant> = None;
+        let resp = loop {
+            match read_http_message(&mut c, Duration::from_millis(500)) {
+                Ok(m) => break Ok(m),
+                Err(e) => {
+                    if !format!("{e:?}").contains("Timeout") {
+                        break Err(e);
+                    }
+                    if bt.is_finished() && backend_done_at.is_none() {
+                        backend_done_at = Some(Instant::now());
+                    }
+                    if backend_done_at.map(|t| t.elapsed() > Duration::from_millis(1500)).unwrap_or(false) || Instant::now() > resp_deadline {
+                        break Err(e);
+                    }
+                }
+            }
+        };
+        // unblock the writer if it is still pushing into a dead transfer
+        let _ = c.stream.shutdown(std::net::Shutdown::Both);
+        let wres = wt.join().unwrap_or(Err("writer thread".into()));
+        let rep = bt.join().unwrap_or_default();
+        if let Some((class, detail)) = &rep.violation {
+            fails.push(Fail { class: class.clone(), detail: detail.clone(), case: case.clone() });
+            c.close();
+            return case;
+        }
+        // the known flaky modes of the H1 -> h2c path (F69-F71): record under their classes and retry
+        let status = resp.as_ref().ok().and_then(|m| m.status());
+        if !rep.headers_seen || rep.upload_ok == 0 {
+            let class = if status == Some(503) { "h1-h2c-fresh-backend-connection-503" } else { "h1-h2c-request-aborted-no-answer" };
+            if !fails.iter().any(|f| f.class == class) {
+                fails.push(Fail { class: class.into(), detail: format!("overlap transfer did not start: status {status:?}, writer {wres:?}, backend {:?}", rep.error), case: case.clone() });
+            }
+            *dist.entry("overlap:retry".into()).or_insert(0) += 1;
+            c.close();
+            continue;
+        }
+        if !rep.upload_done {
+            fails.push(Fail { class: "h1-h2c-overlap-upload-incomplete".into(), detail: format!("{} of {} upload bytes reached the backend (all of them correct); writer {wres:?}; backend {:?}; goaway {:?} rst {:?}; client got {:?}", rep.upload_ok, plan.upload, rep.error, rep.goaway, rep.rst, status), case: case.clone() });
+            c.close();
+            return case;
+        }
+        match resp {
+            Ok(m) if m.status() == Some(200) => {
+                let want: Vec<u8> = (0..rep.resp_sent).map(resp_byte).collect();
+                cmp_body("response body at the client", &m.body, &want, "body-corrupted-under-backpressure", &case, fails);
+            }
+            Ok(m) => fails.push(Fail { class: "h1-h2c-transfer-failed".into(), detail: format!("status {}", m.start_line), case: case.clone() }),
+            Err(e) => {
+                let class = if format!("{e:?}").contains("Timeout") { "h1-h2c-response-stalled" } else { "h1-h2c-transfer-failed" };
+                fails.push(Fail { class: class.into(), detail: format!("client read: {e:?} (backend sent {} response bytes, done={})", rep.resp_sent, rep.resp_done), case: case.clone() });
+            }
+        }
+        c.close();
+        return case;
+    }
+    last_case
+}
+
+// --------------- overlapping upload / download, TLS HTTP/2 client side (thorough) --
+
+/// slow-reading TLS HTTP/2 client that uploads `upload` bytes while it downloads `download`
+/// bytes from an HTTP/1.1 backend that answers at once; every frame is validated
+fn case_overlap_h2front(ctx: &mut Ctx, tls: &mut TlsCtx, upload: usize, download: usize, read_chunk: usize, fails: &mut Vec<Fail>, dist: &mut BTreeMap<String, u64>) -> String {
+    use std::io::{Read, Write};
+    tls.n += 1;
+    let path = format!("/o{}", tls.n);
+    let cid = format!("ov{}", tls.n);
+    let be = MockBackend::listen().unwrap();
+    ctx.w.add_cluster(cluster(&cid)).unwrap();
+    ctx.w.add_https_frontend(tls.front, "localhost", &path, &cid).unwrap();
+    ctx.w.add_backend(&cid, &format!("{cid}-0"), be.addr).unwrap();
+    let case = format!("overlap-h2front path={path} upload={upload} download={download} client_read_chunk={read_chunk}");
+    *dist.entry("overlap:h2tls-h1".into()).or_insert(0) += 1;
+    let stop = std::sync::Arc::new(std::sync::atomic::AtomicBool::new(false));
+    let stop_b = stop.clone();
+    // backend: answers as soon as the head is there, streams the download while it reads the upload
+    let bt = std::thread::spawn(move || -> Result<usize, String> {
+        let mut b = be.accept(T).map_err(|e| format!("accept {e:?}"))?;
+        if b.read_until(b"\r\n\r\n", T) != ReadEnd::Done {
+            return Err("no request head".into());
+        }
+        let head_end = find(&b.received, b"\r\n\r\n").unwrap() + 4;
+        let wstream = b.stream.try_clone().map_err(|e| e.to_string())?;
+        let stop_w = stop_b.clone();
+        let upload_done = std::sync::Arc::new(std::sync::atomic::AtomicBool::new(false));
+        let upload_done_w = upload_done.clone();
+        let wt = std::thread::spawn(move || {
+            let mut w = RawConn::from_stream(wstream);
+            let _ = w.write_all(format!("HTTP/1.1 200 OK\r\nContent-Length: {download}\r\n\r\n").as_bytes(), T);
+            let mut off = 0;
+            while off < download && !stop_w.load(std::sync::atomic::Ordering::Relaxed) {
+                // the tail of the download is held back until the whole upload is in
+                if download - off <= (1 << 16) && !upload_done_w.load(std::sync::atomic::Ordering::Relaxed) {
+                    std::thread::sleep(Duration::from_millis(5));
+                    continue;
+                }
+                let n = (download - off).min(1 << 16);
+                let chunk: Vec<u8> = (off..off + n).map(resp_byte).collect();
+                if w.write_all(&chunk, Duration::from_secs(20)).is_err() {
+                    break;
+                }
+                off += n;
+            }
+            std::mem::forget(w);
+        });
+        // the upload: Content-Length framing, validated byte by byte
+        let mut checked = 0usize;
+        let until = Instant::now() + Duration::from_secs(60);
+        while checked < upload && Instant::now() < until && !stop_b.load(std::sync::atomic::Ordering::Relaxed) {
+            let _ = b.read_some(Duration::from_millis(100));
+            let body = &b.received[head_end..];
+            while checked < body.len().min(upload) {
+                if body[checked] != upload_byte(checked) {
+                    return Err(format!("corrupt:{checked}"));
+                }
+                checked += 1;
+            }
+            if b.eof || b.error.is_some() {
+                break;
+            }
+        }
+        if checked >= upload {
+            upload_done.store(true, std::sync::atomic::Ordering::Relaxed);
+        }
+        let _ = wt.join();
+        while !stop_b.load(std::sync::atomic::Ordering::Relaxed) && Instant::now() < until {
+            let _ = b.read_some(Duration::from_millis(50));
+        }
+        Ok(checked)
+    });
+    let mut st = match tls_connect(tls.front, "localhost", &["h2"], Duration::from_millis(5)) {
+        Ok(s) => s,
+        Err(e) => {
+            stop.store(true, std::sync::atomic::Ordering::Relaxed);
+            fails.push(Fail { class: "h2front-transfer-failed".into(), detail: format!("tls connect: {e:?}"), case: case.clone() });
+            return case;
+        }
+    };
+    let mut hello = b"PRI * HTTP/2.0\r\n\r\nSM\r\n\r\n".to_vec();
+    let mut settings = vec![];
+    settings.extend_from_slice(&4u16.to_be_bytes());
+    settings.extend_from_slice(&(1u32 << 28).to_be_bytes());
+    hello.extend_from_slice(&frame(4, 0, 0, &settings));
+    hello.extend_from_slice(&frame(8, 0, 0, &(1u32 << 28).to_be_bytes()));
+    let mut enc = loona_hpack::Encoder::new();
+    let cl = upload.to_string();
+    let block = enc.encode(vec![(&b":method"[..], &b"POST"[..]), (b":scheme", b"https"), (b":path", path.as_bytes()), (b":authority", b"localhost"), (b"content-length", cl.as_bytes())]);
+    hello.extend_from_slice(&frame(1, 4, 1, &block));
+    // outgoing bytes are queued and pushed as the socket takes them (never block on a write)
+    let mut txq: std::collections::VecDeque<u8> = hello.into_iter().collect();
+    let (mut peer_init, mut send_conn, mut send_stream): (i64, i64, i64) = (65535, 65535, 65535);
+    let mut up_off = 0usize;
+    let mut rx: Vec<u8> = vec![];
+    let mut pos = 0usize;
+    let mut dropped = 0usize;
+    let mut got = 0usize;
+    let mut end_stream = false;
+    let mut violation: Option<(String, String)> = None;
+    let mut err: Option<String> = None;
+    let deadline = Instant::now() + Duration::from_secs(60);
+    let mut last_progress = Instant::now();
+    let mut frames = 0usize;
+    while violation.is_none() && err.is_none() && !end_stream && Instant::now() < deadline {
+        if last_progress.elapsed() > Duration::from_secs(8) {
+            err = Some(format!("no progress for 8 s: {got} of {download} downloaded, {up_off} of {upload} uploaded"));
+            break;
+        }
+        // queue upload DATA inside sozu's windows
+        while up_off < upload && txq.len() < (1 << 17) {
+            let room = send_stream.min(send_conn).min(16384);
+            if room <= 0 {
+                break;
+            }
+            let n = (room as usize).min(upload - up_off);
+            let chunk: Vec<u8> = (up_off..up_off + n).map(upload_byte).collect();
+            let last = up_off + n == upload;
+            txq.extend(frame(0, last as u8, 1, &chunk));
+            up_off += n;
+            send_stream -= n as i64;
+            send_conn -= n as i64;
+        }
+        // write what the socket takes
+        if !txq.is_empty() {
+            let (a, _) = txq.as_slices();
+            let take = a.len().min(1 << 15);
+            match st.write(&a[..take]) {
+                Ok(n) => {
+                    txq.drain(..n);
+                    if n > 0 {
+                        last_progress = Instant::now();
+                    }
+                }
+                Err(e) if e.kind() == std::io::ErrorKind::WouldBlock || e.kind() == std::io::ErrorKind::TimedOut => {}
+                Err(e) => err = Some(format!("write: {e}")),
+            }
+            let _ = st.flush();
+        }
+        // slow reader
+        let mut buf = vec![0u8; read_chunk];
+        match st.read(&mut buf) {
+            Ok(0) => err = Some("connection closed by sozu".into()),
+            Ok(n) => {
+                rx.extend_from_slice(&buf[..n]);
+                last_progress = Instant::now();
+            }
+            Err(e) if e.kind() == std::io::ErrorKind::WouldBlock || e.kind() == std::io::ErrorKind::TimedOut => {}
+            Err(e) => err = Some(format!("read: {e}")),
+        }
+        std::thread::sleep(Duration::from_micros(300));
+        while rx.len() - pos >= 9 {
+            let h = &rx[pos..pos + 9];
+            let len = ((h[0] as usize) << 16) | ((h[1] as usize) << 8) | h[2] as usize;
+            let (ty, fl) = (h[3], h[4]);
+            let raw_sid = u32::from_be_bytes([h[5], h[6], h[7], h[8]]);
+            let sid = raw_sid & 0x7fff_ffff;
+            let bad = ty > 9 || len > 16384 || (sid != 0 && sid != 1) || raw_sid & 0x8000_0000 != 0 || (ty == 8 && len != 4) || (ty == 6 && len != 8) || (ty == 3 && len != 4) || (ty == 4 && len % 6 != 0) || (ty == 0 && sid == 0);
+            if bad {
+                violation = Some(("h2-frame-sync-lost-mid-data".into(), format!("wire offset {}: length {len} type {ty} flags {fl:#x} stream {raw_sid:#x} after {got} response body bytes, {frames} frames", dropped + pos)));
+                break;
+            }
+            if rx.len() - pos - 9 < len {
+                break;
+            }
+            let payload = &rx[pos + 9..pos + 9 + len];
+            frames += 1;
+            match ty {
+                0 => {
+                    for (k, b) in payload.iter().enumerate() {
+                        if *b != resp_byte(got + k) {
+                            violation = Some(("body-corrupted-under-backpressure".into(), format!("response body corrupted at offset {} of {download} (byte {k} of a {len}-byte DATA frame); next bytes {:02x?}", got + k, &payload[k..payload.len().min(k + 13)])));
+                            break;
+                        }
+                    }
+                    got += len;
+                    if fl & 1 != 0 {
+                        end_stream = true;
+                    }
+                }
+                4 if fl & 1 == 0 => {
+                    for e in payload.chunks(6) {
+                        if e.len() == 6 && u16::from_be_bytes([e[0], e[1]]) == 4 {
+                            let v = u32::from_be_bytes([e[2], e[3], e[4], e[5]]) as i64;
+                            send_stream += v - peer_init;
+                            peer_init = v;
+                        }
+                    }
+                    txq.extend(frame(4, 1, 0, &[]));
+                }
+                8 => {
+                    let inc = (u32::from_be_bytes([payload[0], payload[1], payload[2], payload[3]]) & 0x7fff_ffff) as i64;
+                    if sid == 0 {
+                        send_conn += inc;
+                    } else {
+                        send_stream += inc;
+                    }
+                }
+                6 if fl & 1 == 0 => txq.extend(frame(6, 1, 0, payload)),
+                1 => {
+                    if fl & 1 != 0 {
+                        end_stream = true;
+                    }
+                }
+                3 => err = Some(format!("RST_STREAM {payload:?}")),
+                7 => err = Some(format!("GOAWAY {:?}", &payload[4..8.min(payload.len())])),
+                _ => {}
+            }
+            pos += 9 + len;
+            if violation.is_some() {
+                break;
+            }
+        }
+        if pos > (1 << 20) {
+            rx.drain(..pos);
+            dropped += pos;
+            pos = 0;
+        }
+    }
+    stop.store(true, std::sync::atomic::Ordering::Relaxed);
+    drop(st);
+    let back = bt.join().unwrap_or(Err("backend thread".into()));
+    if let Some((class, detail)) = violation {
+        fails.push(Fail { class, detail, case: case.clone() });
+        return case;
+    }
+    match &back {
+        Err(e) if e.starts_with("corrupt:") => {
+            fails.push(Fail { class: "body-corrupted-under-backpressure".into(), detail: format!("request body corrupted at the HTTP/1.1 backend at offset {}", &e[8..]), case: case.clone() });
+            return case;
+        }
+        _ => {}
+    }
+    if let Some(e) = err {
+        fails.push(Fail { class: "h2front-overlap-transfer-failed".into(), detail: format!("{e}; backend {back:?}"), case: case.clone() });
+    } else if !end_stream || got != download {
+        fails.push(Fail { class: "h2front-response-stalled".into(), detail: format!("{got} of {download} downloaded, {up_off} of {upload} uploaded, backend {back:?}"), case: case.clone() });
+    } else if back != Ok(upload) {
+        fails.push(Fail { class: "h2front-overlap-transfer-failed".into(), detail: format!("backend validated {back:?} of {upload} upload bytes"), case: case.clone() });
+    }
+    case
+}
+
 fn main() {
     silence_worker_panics();
     let args = parse_args();
@@ -1344,7 +1904,7 @@ fn main() {
     }
     // ---- h2front family: TLS HTTP/2 client -> HTTP/1.1 backend, strict reader at the backend ----
     let family = args.extra.get("family").cloned().unwrap_or_default();
-    {
+    if family != "overlap" && family != "overlap-front" {
         let mut frng = Rng::new(args.seed ^ 0xf207);
         match new_tls_listener(&mut ctx) {
             Err(e) => fails.push(Fail { class: "rig-setup".into(), detail: e, case: "h2front".into() }),
@@ -1367,6 +1927,50 @@ fn main() {
         ctx.w.stop();
         finish(&args, evaluations, &dist, &samples, &fails, &known_witnesses, t0);
         return;
+    }
+    // ---- overlapping upload / download under back-pressure (h2c backend) ----
+    if family.is_empty() || family == "overlap" || family == "overlap-front" {
+        let plans: Vec<OverlapPlan> = if thorough {
+            vec![
+                OverlapPlan { upload: 8 << 20, rcvbuf: 32 << 10, burst: 768 << 10, pause: Duration::from_millis(20), frames_per_pause: 8 },
+                OverlapPlan { upload: 8 << 20, rcvbuf: 4 << 10, burst: 256 << 10, pause: Duration::from_millis(10), frames_per_pause: 4 },
+                OverlapPlan { upload: 16 << 20, rcvbuf: 64 << 10, burst: 1 << 20, pause: Duration::from_millis(30), frames_per_pause: 16 },
+                OverlapPlan { upload: 3 << 20, rcvbuf: 16 << 10, burst: 100_000, pause: Duration::from_millis(5), frames_per_pause: 2 },
+                OverlapPlan { upload: 8 << 20, rcvbuf: 32 << 10, burst: 768 << 10, pause: Duration::from_millis(20), frames_per_pause: 8 },
+            ]
+        } else {
+            vec![OverlapPlan { upload: 8 << 20, rcvbuf: 32 << 10, burst: 768 << 10, pause: Duration::from_millis(20), frames_per_pause: 8 }]
+        };
+        let t1 = Instant::now();
+        for plan in &plans {
+            let case = case_overlap_h2c(&mut ctx, plan, &mut fails, &mut dist);
+            evaluations += 1;
+            if samples.len() < 4 {
+                samples.push(json!({"case": case}));
+            }
+            if !ctx.w.alive().is_alive() {
+                fails.push(Fail { class: "worker-died".into(), detail: format!("{:?}", ctx.w.exit_state()), case: "after overlap".into() });
+                break;
+            }
+        }
+        if thorough || family == "overlap-front" {
+            match new_tls_listener(&mut ctx) {
+                Err(e) => fails.push(Fail { class: "rig-setup".into(), detail: e, case: "overlap-h2front".into() }),
+                Ok(mut t) => {
+                    for (u, d, rc) in [(4usize << 20, 24usize << 20, 4096usize), (8 << 20, 16 << 20, 1024), (1 << 20, 32 << 20, 16384)] {
+                        let case = case_overlap_h2front(&mut ctx, &mut t, u, d, rc, &mut fails, &mut dist);
+                        evaluations += 1;
+                        samples.push(json!({"case": case}));
+                    }
+                }
+            }
+        }
+        dist.insert("overlap_wall_ms".into(), t1.elapsed().as_millis() as u64);
+        if family == "overlap" || family == "overlap-front" {
+            ctx.w.stop();
+            finish(&args, evaluations, &dist, &samples, &fails, &known_witnesses, t0);
+            return;
+        }
     }
     // ---- fixed witnesses first (re-demonstrated on every run) ----
     // W1: the backend advertises a small initial window, a large connection window and
@@ -1485,7 +2089,7 @@ fn finish(args: &verif_harness::Args, evaluations: u64, dist: &BTreeMap<String, 
         let setup = class == "worker-died" || class == "rig-setup";
         match args.prop.as_str() {
             // peer limits and liveness
-            "C14" => setup || class.starts_with("h2c-") || class.starts_with("h2-front-") || class.starts_with("h2tls-h1-response-stalled") || class.starts_with("h1-h2c-") || class == "h2front-response-stalled",
+            "C14" => setup || class.starts_with("h2c-") || class.starts_with("h2-front-") || class.starts_with("h2tls-h1-response-stalled") || class.starts_with("h1-h2c-") || class == "h2front-response-stalled" || class == "h2-frame-sync-lost-mid-data" || class == "body-corrupted-under-backpressure",
             // request boundaries at the backend
             "C03" => setup || class.starts_with("h2-h1-") || class.starts_with("c03-"),
             // C01: byte-exactness and clean ends; the window-ledger classes are C14's, the trailer classes C03's
